@@ -27,6 +27,11 @@ type BFS struct {
 	// calls emit for every enabled operation.
 	Expand func(path []uint16, emit func(op uint16, key string))
 
+	// Stop, if set, is asked after every level; returning true ends the search
+	// (used to stop exploring once a violation has been recorded: on a tree that
+	// breaks the property the state space may no longer be small or finite).
+	Stop func() bool
+
 	// Start, if set, is the initial frontier (paths whose states are taken as
 	// already reached) instead of the empty path: used to shard a search over
 	// processes by its first operation(s).
@@ -135,6 +140,10 @@ func (b *BFS) Explore(initKey string) {
 		})
 		frontier = next
 		depth++
+		if b.Stop != nil && b.Stop() {
+			b.Capped = true
+			break
+		}
 	}
 	b.Depth = depth
 	b.Fixpoint = len(frontier) == 0 && !b.Capped
